@@ -8,3 +8,6 @@ import "github.com/FollowTheProcess/collections/dag"
 const dagControlled = true
 
 func setDagOrder(f func(n int) []int) { dag.VerifOrder = f }
+
+// setFileOrder controls the iteration order of SpokFile.Tasks / SpokFile.Vars (overlay/patch_file.py).
+func setFileOrder(f func(n int) []int) { dag.VerifFileOrder = f }
